@@ -308,6 +308,13 @@ def shrink_list(items, still_fails, max_steps=400):
     return items
 
 
+def ambient_what(name):
+    if not name:
+        return None
+    import ambient
+    return ambient.CONFIGS.get(name, (None, None, name))[2]
+
+
 def run_check(prop, tier, seed):
     """Run one property's check; returns the process exit status."""
     t0 = time.time()
@@ -401,16 +408,49 @@ def run_check(prop, tier, seed):
             infra.append({'kind': 'search-crash', 'detail': traceback.format_exc()[-3000:]})
     search_evals = ctx.evaluations - corr_evals
 
+    # ---- 5b. ambient sweep: the same correspondence and search in child interpreters whose implicit
+    # inputs differ (python -O, -bb, warnings as errors, logging levels, lazy i18n, TZ, stdin, ...) ----
+    amb_summary = {}
+    if model_ok and not os.environ.get('VERIF_NO_AMBIENT'):
+        import ambient
+        amb_results, amb_infra = ambient.sweep(prop, tier, seed)
+        infra += amb_infra
+        for name, r in sorted(amb_results.items()):
+            new_here = [j for j in r['failures'] if not j.get('kid')]
+            amb_summary[name] = {'what': ambient.CONFIGS[name][2], 'wall_s': r.get('wall_s'),
+                                 'correspondence_evaluations': r['corr_evals'],
+                                 'search_evaluations': r['search_evals'],
+                                 'disagreements': r.get('n_disagreements', 0),
+                                 'failing': len(r['failures']), 'new': len(new_here)}
+            for b in r['blind']:
+                broken.append({'kind': 'harness-blind', 'name': '%s %s (ambient %s)' % (prop.ID, b.split(':')[0], name),
+                               'ambient': name, 'detail': b})
+            if r.get('n_disagreements'):
+                broken.append({'kind': 'correspondence', 'ambient': name,
+                               'name': '%s model/implementation under ambient configuration %s (%s)'
+                                       % (prop.ID, name, ambient.CONFIGS[name][2]),
+                               'detail': r['disagreements'], 'count': r['n_disagreements']})
+            for j in r['failures']:
+                f = Failure(j['case'], j['detail'], j.get('class'))
+                f.ambient, f.kid, f.preclassified = name, j.get('kid'), True
+                failures.append(f)
+        for name in ambient.DEFAULT:
+            if (prop.ID, name) in ambient.SKIP:
+                amb_summary[name] = {'skipped': ambient.SKIP[(prop.ID, name)]}
+
     # ---- 6. classify against the known findings --------------------------
     findings = load_findings()
     listed = [f for f in findings.get('findings', []) if prop.ID in f.get('properties', [])]
     known_hits, new_failures = {}, []
     for f in failures:
         kid = None
-        try:
-            kid = prop.classify(ctx, f, listed) if getattr(prop, 'classify', None) else None
-        except Exception:
-            infra.append({'kind': 'classify-crash', 'detail': traceback.format_exc()[-2000:]})
+        if getattr(f, 'preclassified', False):
+            kid = f.kid             # classified in the child that found it
+        else:
+            try:
+                kid = prop.classify(ctx, f, listed) if getattr(prop, 'classify', None) else None
+            except Exception:
+                infra.append({'kind': 'classify-crash', 'detail': traceback.format_exc()[-2000:]})
         if kid:
             known_hits.setdefault(kid, []).append(f)
         else:
@@ -440,6 +480,8 @@ def run_check(prop, tier, seed):
             break
         path = write_replay(prop.ID, seed, {
             'property': prop.ID, 'kind': 'failing-input', 'failure': f.to_json(),
+            'ambient': getattr(f, 'ambient', None),
+            'ambient_what': ambient_what(getattr(f, 'ambient', None)),
             'broken': [{k: v for k, v in b.items() if k != 'detail'} for b in broken],
             'how_to_replay': './check %s --replay <this file>' % prop.ID})
         violations.append((path, ''))
@@ -479,6 +521,7 @@ def run_check(prop, tier, seed):
             'unmodelled': list(getattr(prop, 'UNMODELLED', [])),
             'notes': ctx.notes,
             'exhaustive': bool(getattr(ctx, 'exhaustive', False)),
+            'ambient_sweep': amb_summary,
         },
         'assumptions': list(getattr(prop, 'ASSUMPTIONS', [])),
     }
